@@ -29,9 +29,99 @@ import (
 	. "verifh/lib"
 )
 
+type c20Arg struct {
+	Kind string `json:"kind"` // "s": string argument, "d": int argument
+	S    string `json:"s_hex,omitempty"`
+	D    int    `json:"d,omitempty"`
+}
+
+// one update. Fmt == nil: WriteForLine(Line, text). Fmt != nil: WriteForLinef(Line, format, args...);
+// Text is then fmt.Sprintf(format, args...) as computed by the harness (what the model sees).
 type c20Up struct {
-	Line int    `json:"line"`
-	Text string `json:"text_hex"`
+	Line int      `json:"line"`
+	Text string   `json:"text_hex"`
+	Fmt  *string  `json:"format_hex,omitempty"`
+	Args []c20Arg `json:"args,omitempty"`
+}
+
+func (u c20Up) fmtArgs() (string, []interface{}) {
+	fb, _ := hex.DecodeString(*u.Fmt)
+	args := make([]interface{}, len(u.Args))
+	for i, a := range u.Args {
+		if a.Kind == "d" {
+			args[i] = a.D
+		} else {
+			b, _ := hex.DecodeString(a.S)
+			args[i] = string(b)
+		}
+	}
+	return string(fb), args
+}
+
+// the text the update carries (for a formatted update: recomputed from format and arguments)
+func (u c20Up) text() string {
+	if u.Fmt == nil {
+		b, _ := hex.DecodeString(u.Text)
+		return string(b)
+	}
+	f, args := u.fmtArgs()
+	return fmt.Sprintf(f, args...)
+}
+
+func (u c20Up) normalized() c20Up {
+	u.Text = hex.EncodeToString([]byte(u.text()))
+	return u
+}
+
+func c20Write(t multiterm.MultilineTerm, u c20Up) {
+	if u.Fmt == nil {
+		t.WriteForLine(u.Line, u.text())
+		return
+	}
+	f, args := u.fmtArgs()
+	t.WriteForLinef(u.Line, f, args...)
+}
+
+// the same text through WriteForLinef: cut into pieces, each either literal in the format
+// ('%' doubled) or an argument of %s / %v / %d (a piece that is a canonical decimal)
+func c20Formatted(r *Rng, line int, text string) c20Up {
+	var fb strings.Builder
+	var args []c20Arg
+	rs := []byte(text)
+	pos := 0
+	for pos < len(rs) {
+		n := 1 + r.Intn(12)
+		if pos+n > len(rs) || r.Chance(1, 5) {
+			n = len(rs) - pos
+		}
+		// keep multi-byte runes and digit runs whole
+		for pos+n < len(rs) && (rs[pos+n]&0xC0 == 0x80 || (rs[pos+n] >= '0' && rs[pos+n] <= '9' && rs[pos+n-1] >= '0' && rs[pos+n-1] <= '9')) {
+			n++
+		}
+		piece := string(rs[pos : pos+n])
+		pos += n
+		if d, err := strconv.Atoi(piece); err == nil && strconv.Itoa(d) == piece && r.Chance(2, 3) {
+			fb.WriteString("%d")
+			args = append(args, c20Arg{Kind: "d", D: d})
+			continue
+		}
+		switch r.Intn(3) {
+		case 0:
+			fb.WriteString(strings.ReplaceAll(piece, "%", "%%"))
+		case 1:
+			fb.WriteString("%s")
+			args = append(args, c20Arg{Kind: "s", S: hex.EncodeToString([]byte(piece))})
+		default:
+			fb.WriteString("%v")
+			args = append(args, c20Arg{Kind: "s", S: hex.EncodeToString([]byte(piece))})
+		}
+	}
+	f := hex.EncodeToString([]byte(fb.String()))
+	u := c20Up{Line: line, Fmt: &f, Args: args}
+	if got := u.text(); got != text {
+		panic(fmt.Sprintf("harness: Sprintf(%q, ...) = %q, wanted %q", fb.String(), got, text))
+	}
+	return u.normalized()
 }
 type c20In struct {
 	// kind 4: writer selection. A child process of this binary whose real standard output is
@@ -136,8 +226,7 @@ func c20Child() {
 		rep.Writer = fmt.Sprintf("%T", vt)
 	}
 	for _, u := range spec.Ups {
-		b, _ := hex.DecodeString(u.Text)
-		vt.WriteForLine(u.Line, string(b))
+		c20Write(vt, u)
 	}
 	vt.Close()
 }
@@ -314,6 +403,7 @@ func optS(p *string) string {
 
 func c20SelectCase(in c20In) Case {
 	in.Kind = 4
+	in.Ups = c20Normalize(in.Ups)
 	out := c20RunSelect(in)
 	ups := make([]string, len(in.Ups))
 	for i, u := range in.Ups {
@@ -376,7 +466,7 @@ func c20SelectCases(r *Rng, n int) []Case {
 		outs = append(outs, "tty")
 	}
 	h := func(s string) string { return hex.EncodeToString([]byte(s)) }
-	demo := []c20Up{{0, h("first, a rather long text")}, {1, h("second")}, {3, h("fourth")}, {0, h("first")}, {1, h("second line, grown")}}
+	demo := []c20Up{{Line: 0, Text: h("first, a rather long text")}, {Line: 1, Text: h("second")}, {Line: 3, Text: h("fourth")}, {Line: 0, Text: h("first")}, {Line: 1, Text: h("second line, grown")}}
 	var cases []Case
 	for _, o := range outs {
 		for _, snap := range []bool{false, true} {
@@ -390,8 +480,8 @@ func c20SelectCases(r *Rng, n int) []Case {
 	// the environment as a dimension: COLUMNS / LINES must not change what a non-terminal receives
 	// (final lines untrimmed), nor the width a terminal is trimmed at (the tty driver's window size)
 	sp := func(v string) *string { return &v }
-	wide := []c20Up{{0, h(strings.Repeat("0123456789", 12))}, {2, h("short")}, {1, h("\x1b[31m" + strings.Repeat("abcdefghij", 9) + "\x1b[0m")},
-		{0, h(strings.Repeat("wider than any COLUMNS value ", 4))}}
+	wide := []c20Up{{Line: 0, Text: h(strings.Repeat("0123456789", 12))}, {Line: 2, Text: h("short")}, {Line: 1, Text: h("\x1b[31m" + strings.Repeat("abcdefghij", 9) + "\x1b[0m")},
+		{Line: 0, Text: h(strings.Repeat("wider than any COLUMNS value ", 4))}}
 	envVals := []*string{nil, sp(""), sp("20"), sp("80"), sp("0"), sp("-5"), sp("abc")}
 	for _, o := range outs {
 		if o == "null" {
@@ -422,7 +512,11 @@ func c20SelectCases(r *Rng, n int) []Case {
 			if in.Out == "tty" && r.Chance(1, 3) {
 				vis = in.Cols + r.Range(-1, 6)
 			}
-			in.Ups = append(in.Ups, c20Up{l, h(c20Text(r, vis, sgr, multi, false))})
+			if t := c20Text(r, vis, sgr, multi, false); r.Chance(1, 2) {
+				in.Ups = append(in.Ups, c20Formatted(r, l, t))
+			} else {
+				in.Ups = append(in.Ups, c20Up{Line: l, Text: h(t)})
+			}
 		}
 		cases = append(cases, c20SelectCase(in))
 	}
@@ -472,32 +566,27 @@ func c20Run(in c20In) (out c20Out) {
 		}
 		marks = append(marks, off)
 	}
-	texts := make([]string, len(in.Ups))
-	for i, u := range in.Ups {
-		b, _ := hex.DecodeString(u.Text)
-		texts[i] = string(b)
-	}
 	switch in.Kind {
 	case 0, 3:
 		t := multiterm.New()
-		for i, u := range in.Ups {
-			t.WriteForLine(u.Line, texts[i])
+		for _, u := range in.Ups {
+			c20Write(t, u)
 			mark()
 		}
 		t.Close()
 		mark()
 	case 1:
 		t := helpers.BuildVTerm(true)
-		for i, u := range in.Ups {
-			t.WriteForLine(u.Line, texts[i])
+		for _, u := range in.Ups {
+			c20Write(t, u)
 			mark()
 		}
 		t.Close()
 		mark()
 	default:
 		t := multiterm.NewVirtualTermEx(in.Size, 10)
-		for i, u := range in.Ups {
-			t.WriteForLine(u.Line, texts[i])
+		for _, u := range in.Ups {
+			c20Write(t, u)
 		}
 		var buf bytes.Buffer
 		t.WriteToOutput(&buf)
@@ -574,10 +663,19 @@ func c20Scan(s string) (vis int, wf, sgr, multi bool) {
 	return
 }
 
+func c20Normalize(ups []c20Up) []c20Up {
+	out := make([]c20Up, len(ups))
+	for i, u := range ups {
+		out[i] = u.normalized()
+	}
+	return out
+}
+
 func c20Case(in c20In) Case {
 	if in.Kind == 4 {
 		return c20SelectCase(in)
 	}
+	in.Ups = c20Normalize(in.Ups)
 	out := c20Run(in)
 	ups := make([]string, len(in.Ups))
 	for i, u := range in.Ups {
@@ -632,6 +730,25 @@ func c20Case(in c20In) Case {
 	for i, u := range in.Ups {
 		b, _ := hex.DecodeString(u.Text)
 		vis, wf, sgr, multi := c20Scan(string(b))
+		if u.Fmt != nil {
+			tag("via=WriteForLinef")
+			fb, _ := hex.DecodeString(*u.Fmt)
+			if strings.Contains(string(fb), "%%") {
+				tag("format-literal-%%")
+			}
+			if strings.Contains(string(fb), "%d") {
+				tag("format-%d")
+			}
+			for _, a := range u.Args {
+				ab, _ := hex.DecodeString(a.S)
+				if strings.Contains(string(ab), "%") {
+					tag("argument-contains-%")
+				}
+			}
+			if in.Trim && vis > in.Cols {
+				tag("formatted-text>width(trim on)")
+			}
+		}
 		if !wf {
 			allWf = false
 			tag("text-not-well-formed")
@@ -698,6 +815,7 @@ func c20Case(in c20In) Case {
 	}
 	var tags []string
 	for _, t := range []string{"kind=TermWriter", "kind=TermWriter(margin)", "emitted-text-fills-row", "kind=BufferedTerm", "kind=VirtualTerm", "trim=on", "trim=off",
+		"via=WriteForLinef", "format-literal-%%", "format-%d", "argument-contains-%", "formatted-text>width(trim on)",
 		"cols<=0", "cols=1", "cols<=10", "cols<=80", "cols<=120", "in-theorem-domain", "does-not-fit(trim off)",
 		"text-not-well-formed", "sgr", "multi-byte", "empty-visible-text", "text=width", "text=width+1", "text>width",
 		"rewrite", "shrinking-rewrite", "jump-up", "gap", "jump-past-max-from-above", "same-line-again", "no-updates"} {
@@ -736,7 +854,7 @@ func c20Text(r *Rng, vis int, sgr, multi, bad bool) string {
 		case r.Chance(1, 7):
 			sb.WriteByte(' ')
 		case r.Chance(1, 12):
-			sb.WriteByte(Pick(r, []byte("m[;0K|#=~")))
+			sb.WriteByte(Pick(r, []byte("m[;0K|#=~%%7142")))
 		default:
 			sb.WriteByte(byte('a' + r.Intn(26)))
 		}
@@ -878,6 +996,7 @@ func c20Random(r *Rng) c20In {
 	sgr := r.Chance(1, 2)
 	multi := r.Chance(1, 2)
 	bad := r.Chance(1, 10)
+	viaF := r.Chance(3, 5) // histories that mix WriteForLine and WriteForLinef
 	for _, l := range lines {
 		vis := c20Vis(r, in.Cols, fitAll || (in.Trim && r.Chance(1, 2)))
 		if in.Kind == 3 && r.Chance(2, 3) { // fill the row to the last column
@@ -887,7 +1006,11 @@ func c20Random(r *Rng) c20In {
 			}
 		}
 		t := c20Text(r, vis, sgr, multi, bad)
-		in.Ups = append(in.Ups, c20Up{Line: l, Text: hex.EncodeToString([]byte(t))})
+		if viaF && r.Chance(2, 3) {
+			in.Ups = append(in.Ups, c20Formatted(r, l, t))
+		} else {
+			in.Ups = append(in.Ups, c20Up{Line: l, Text: hex.EncodeToString([]byte(t))})
+		}
 	}
 	return in
 }
@@ -901,15 +1024,34 @@ func c20ExhaustiveWriter(L int) []Case {
 		for _, cfg := range []struct {
 			trim bool
 			cols int
-		}{{true, 2}, {false, 3}} {
-			cases = append(cases, c20Case(c20In{Kind: 0, Trim: cfg.trim, Cols: cfg.cols, Ups: append([]c20Up(nil), pre...)}))
+			viaF bool
+		}{{true, 2, false}, {false, 3, false}, {true, 2, true}} {
+			ups := append([]c20Up(nil), pre...)
+			if cfg.viaF {
+				if len(ups) == 0 {
+					continue
+				}
+				// every update through WriteForLinef: the text as a %s argument / as the literal format
+				for i, u := range ups {
+					var f string
+					if i%2 == 0 {
+						f = hex.EncodeToString([]byte("%s"))
+						ups[i] = c20Up{Line: u.Line, Fmt: &f, Args: []c20Arg{{Kind: "s", S: u.Text}}}
+					} else {
+						tb, _ := hex.DecodeString(u.Text)
+						f = hex.EncodeToString([]byte(strings.ReplaceAll(string(tb), "%", "%%")))
+						ups[i] = c20Up{Line: u.Line, Fmt: &f}
+					}
+				}
+			}
+			cases = append(cases, c20Case(c20In{Kind: 0, Trim: cfg.trim, Cols: cfg.cols, Ups: ups}))
 		}
 		if depth == L {
 			return
 		}
 		for l := 0; l < 3; l++ {
 			for _, t := range texts {
-				rec(append(append([]c20Up(nil), pre...), c20Up{l, hex.EncodeToString([]byte(t))}), depth+1)
+				rec(append(append([]c20Up(nil), pre...), c20Up{Line: l, Text: hex.EncodeToString([]byte(t))}), depth+1)
 			}
 		}
 	}
@@ -945,7 +1087,7 @@ func c20ExhaustiveTrim(L int) []Case {
 			}
 			in := c20In{Kind: 2, Trim: true, Cols: cols}
 			for i, t := range texts[lo:hi] {
-				in.Ups = append(in.Ups, c20Up{i, hex.EncodeToString([]byte(t))})
+				in.Ups = append(in.Ups, c20Up{Line: i, Text: hex.EncodeToString([]byte(t))})
 			}
 			cases = append(cases, c20Case(in))
 		}
@@ -964,10 +1106,10 @@ func c20Gen(r *Rng, n int, tier string) []Case {
 	}
 	// the histories of the package's own tests
 	cases = append(cases, c20Case(c20In{Kind: 0, Trim: false, Cols: 80, Ups: []c20Up{
-		{0, hex.EncodeToString([]byte("Hello"))}, {1, hex.EncodeToString([]byte("you"))},
-		{10, hex.EncodeToString([]byte("There"))}, {5, hex.EncodeToString([]byte("This is Test"))}}}))
+		{Line: 0, Text: hex.EncodeToString([]byte("Hello"))}, {Line: 1, Text: hex.EncodeToString([]byte("you"))},
+		{Line: 10, Text: hex.EncodeToString([]byte("There"))}, {Line: 5, Text: hex.EncodeToString([]byte("This is Test"))}}}))
 	cases = append(cases, c20Case(c20In{Kind: 2, Trim: true, Cols: 10, Ups: []c20Up{
-		{0, hex.EncodeToString([]byte("hello there this \x1b123m is a longer than 10 char string"))}}}))
+		{Line: 0, Text: hex.EncodeToString([]byte("hello there this \x1b123m is a longer than 10 char string"))}}}))
 	if tier == "thorough" {
 		cases = append(cases, c20SelectCases(r.Fork(), 200)...)
 	} else {
@@ -988,12 +1130,13 @@ func main() {
 	Main(&Prop{
 		Name:   "C20",
 		Header: "From Coq Require Import List NArith ZArith String.\nFrom RareV Require Import Corr.C20Case.\nImport ListNotations.\nOpen Scope N_scope. Open Scope string_scope.\n",
-		Rule: "fixed part: every history of at most 2 (quick) / 3 (thorough) updates over lines {0,1,2} and texts {\"\", a, abc, bold ab} through TermWriter at (trim on, width 2) and (trim off, width 3); " +
+		Rule: "fixed part: every history of at most 2 (quick) / 3 (thorough) updates over lines {0,1,2} and texts {\"\", a, abc, bold ab} through TermWriter at (trim on, width 2), (trim off, width 3) and (trim on, width 2, every update through WriteForLinef); " +
 			"the trim on every text of length <= 4 (quick) / 5 (thorough) over {a, ESC, '[', '1', 'm'} at widths 1..3 (as VirtualTerm lines); the histories of the package's own tests. " +
 			"writer selection: a child process of the harness whose real standard output is a regular temp file / a pipe / /dev/null / a pty with a chosen window size (when /dev/ptmx is usable) runs helpers.BuildVTerm(snapshot) or helpers.BuildVTermFromArguments (--snapshot, --noout) and a history, and reports the writer it got, termstate.IsPipedOutput, color.Enabled, AutoTrim and the width as the commands see them; the bytes that arrived are compared with the model's (file, pipe: the buffered writer's final lines; pty: the screen of the reference terminal; /dev/null: nothing is observable, only the consistency of the report is required): every combination over one fixed history plus 24 (quick) / 200 (thorough) seeded ones; the child's environment is a dimension: COLUMNS unset / empty / 20 / 80 / 0 / -5 / abc and LINES, for file, pipe and pty, over a history whose final lines are wider than every COLUMNS value (expected: a non-terminal receives the final lines untrimmed, a pty is trimmed at the window size the tty driver reports, whatever the environment says), and random COLUMNS / LINES in half of the seeded ones. " +
 			"seeded part: 60% TermWriter (multiterm.New, os.Stdout redirected to a file, the output of every call recorded separately), 10% TermWriter with every text at least as wide as the terminal (finding C20-dec-margin, repaired: a row filled to the last column), 20% BufferedTerm through helpers.BuildVTerm(true), 10% VirtualTerm (NewVirtualTermEx with initial size 0..5, WriteToOutput into a buffer, Get(-1..LineCount), LineCount); " +
 			"widths 1..120 (weighted to 1..3, 4..12, 80) and occasionally 0/-1, AutoTrim on (60%) / off; 0..40 updates over at most 12 lines in five orders (top-to-bottom redraw, bottom-up, one line hammered, growing frontier with jumps back, random); " +
 			"texts with a chosen number of visible runes aimed at the width (0, width-1, width, width+1, 2*width, random), ASCII and multi-byte runes (2, 3 and 4 byte encodings, U+FFFD, U+10FFFF), SGR sequences with and without a trailing reset, and in 10% of the histories texts outside the theorem's domain (TAB, lone ESC, unterminated sequence, other CSI sequences, invalid UTF-8, C1 controls). " +
+			"the entry point is a dimension: in 60% of the seeded histories (all kinds, also the child-process ones) two thirds of the updates go through WriteForLinef with a format cut from the text at random places, each piece a literal (% doubled), a %s or %v string argument (also pieces containing %) or a %d integer argument; the model sees fmt.Sprintf(format, args...) as computed by the harness. " +
 			"The model's and the implementation's per-call outputs are interpreted by the reference terminal of Model/Term.v (with and without ONLCR, idealised and DEC right margin) and the screens compared after every call; the property's boolean form is evaluated on the implementation's output. " +
 			"distinct = distinct (kind, size, trim, width, updates); non-trivial = at least 2 updates and at least one of: a rewrite with a shorter text, a jump upwards, a gap, a text of exactly / more than the width, an SGR sequence.",
 		Gen: c20Gen,
